@@ -130,8 +130,12 @@ impl SparqlNumber {
 
     pub fn abs(&self) -> Self {
         match self {
-            SparqlNumber::NativeInt(inner) => inner.abs().into(),
-            SparqlNumber::BigInt(inner) => inner.clone().into(),
+            SparqlNumber::NativeInt(inner) => match inner.checked_abs() {
+                Some(abs) => abs.into(),
+                // NB: the absolute value of isize::MIN does not fit in an isize
+                None => BigInt::from(*inner).abs().into(),
+            },
+            SparqlNumber::BigInt(inner) => inner.abs().into(),
             SparqlNumber::Decimal(inner) => inner.abs().into(),
             SparqlNumber::Float(inner) => inner.abs().into(),
             SparqlNumber::Double(inner) => inner.abs().into(),
